@@ -204,6 +204,11 @@ def add_intruder(p, rng):
     st = None
     if rng.random() < 0.25 and not deps:
         st = q.start + timedelta(days=rng.randint(0, 6), hours=rng.choice([0, 9, 13]))
+    if rng.random() < 0.15 and not deps:
+        # a fixed period (own start and own end, no effort) that names a resource: still the lowest priority
+        a = q.start + timedelta(days=rng.randint(0, 4), hours=rng.choice([9, 10, 13]))
+        q.add_task("zz_intruder", effort=0, alloc=[r], prio=rng.choice([1, 2]), start=a, end=a + timedelta(hours=rng.choice([4, 30, 80])))
+        return q
     q.add_task("zz_intruder", effort=eff, alloc=[r], prio=rng.choice([1, 2, 50, 100]), deps=deps, start=st)
     return q
 
@@ -486,16 +491,27 @@ def check_c16(prop, tier, replay=None):
     for name in ("core_dialect", "limits_profile", "chain_subslot"):
         bases += getattr(gen, name)(rng, n)
     # backward mode: tasks anchored at the project end; one scenario may need a horizon far beyond it (a huge effort override)
-    for name in ("alap_profile", "dags_alap", "alap_pack"):
+    for name in ("alap_profile", "dags_alap", "alap_pack", "jit"):
         for pid, p in getattr(gen, name)(rng, max(4, n // 2)):
             big = [t for t in p.tasks if not t.kids and t.effort]
             if big and rng.random() < 0.7:
                 p._c16_big = rng.choice(big)
+            p._c16_alap = True
             bases.append((pid, p))
     jobs, pairs, payload = [], [], {}
     for pid, p in bases:
         q = make_scenarios(p, rng)
         ids = scenario_order(q.scenarios)
+        if getattr(p, "_c16_alap", False) and len(ids) > 1 and rng.random() < 0.6:
+            # a deadline that exists in ONE scenario only (written with its prefix): who is anchored, and whose predecessors are
+            # pulled back, differs from scenario to scenario
+            sinks = [t for t in q.tasks if not t.kids and t.effort and t.end is not None]
+            if sinks:
+                t = rng.choice(sinks)
+                sid = rng.choice(ids[1:])
+                t.scen.setdefault(sid, {})["end"] = t.end - timedelta(days=rng.randint(1, 5))
+                if rng.random() < 0.5:
+                    t.end = None          # ... and in the other scenarios the task has no deadline of its own at all
         big = getattr(p, "_c16_big", None)
         if big is not None and len(ids) > 1:
             # the LAST scenario needs hundreds of hours more: the slot tables grow for all scenarios, nobody else may move
